@@ -544,7 +544,13 @@ fn check_characteristic_common(
             &record_layout.axis_pts_5,
         ];
         let axis_pts_names = ["X", "Y", "Z", "4", "5"];
-        for (idx, axis_descr) in characteristic.axis_descr().iter().enumerate() {
+        // a record layout describes at most five axes; a surplus AXIS_DESCR is reported above as a wrong axis count
+        for (idx, axis_descr) in characteristic
+            .axis_descr()
+            .iter()
+            .enumerate()
+            .take(axis_refs.len())
+        {
             if axis_descr.attribute == AxisDescrAttribute::StdAxis {
                 // an STD_AXIS must be described by the record layout - should this also apply to CURVE_AXIS?
                 if let Some(axis_pts_dim) = axis_refs[idx] {
